@@ -12,6 +12,7 @@ import GPy.C04.Gen
 import GPy.C01.Gen
 import GPy.C06.Gen
 import GPy.C06.StmtGen
+import GPy.C06.XGen
 import GPy.C20.Gen
 import GPy.C03.Gen
 import GPy.C19.Gen
@@ -33,7 +34,7 @@ def main (args : List String) : IO UInt32 := do
     | "C19" => GPy.C19.genMain tier seed; return 0
     | "C03" => GPy.C03.genMain tier seed; return 0
     | "C20" => GPy.C20.genMain tier seed; return 0
-    | "C06" => GPy.C06.genMain tier seed; GPy.C06.genStmts seed (if tier == "thorough" then 6000 else 300); return 0
+    | "C06" => GPy.C06.genMain tier seed; GPy.C06.genStmts seed (if tier == "thorough" then 6000 else 300); GPy.C06.X.genX tier seed; return 0
     | "C01" => GPy.C01.genMain tier seed; return 0
     | "C04" => GPy.C04.genMain tier seed; return 0
     | "C12" => GPy.C12.genMain tier seed; return 0
